@@ -58,7 +58,8 @@ chk('C05', 'translation_validation',
     'TRCL + FILL transformation; nesting; one universe in two containers) with symbolic placements, container sizes and filler offsets go '
     'through the real pipeline under symbolic execution (cache hits, surface coincidences and re-classifications are solver forks). Per path '
     'and per (filler, container) provenance label z3 proves, with the point symbolic, that the written volumes cover exactly '
-    'region_container(p) and region_filler(T^-1 p) (and deeper levels) and carry the composition of the innermost filler.',
+    'region_container(p) and region_filler(T^-1 p) (and deeper levels) and carry the composition of the innermost filler; per path the '
+    'provenance records of every written volume are checked against the chain of filled cells of the deck.',
     TV_NOTE + '; rotations from a finite exact set, at most 3 symbolic numbers per deck', TV_TECH, 'DESIGN.md 4/C05')
 
 chk('C13', 'translation_validation',
@@ -105,7 +106,7 @@ chk('C06', 'translation_validation',
     'symbolic pitches, offsets, container radius and placements through the real pipeline; per path and provenance label z3 proves (point '
     'symbolic) that the written volumes cover exactly the union of the reference elements: unit cell translated by i a1+j a2+k a3, positive index '
     'across the first-listed plane, first index fastest, nothing outside the ranges, own universe -> lattice cell material.',
-    TV_NOTE + '; <= 9 elements per lattice; unit cells written with planes, RPP facets or the RPP itself; F15/F19 repaired in /repo', TV_TECH,
+    TV_NOTE + '; <= 9 elements per lattice; unit cells written with planes, RPP facets or the RPP itself; FILL=n (tr) on the LAT cell (translation, rotation, next to a translating TRCL); F15/F19/F26 repaired in /repo', TV_TECH,
     'DESIGN.md 4/C06')
 
 chk('C11', 'other',
@@ -146,7 +147,7 @@ chk('C14', 'translation_validation',
 
 chk('C07', 'translation_validation',
     'LAT=2 decks: hexagonal prisms built from four centrally symmetric hexagons with rational vertices (incl. the irregular one of the hexVertices '
-    'docstring), prism axis x/y/z, six or eight planes, every choice of first pair / orientation in a pair / order of the last two side planes, '
+    'docstring), prism axis x/y/z or one tilted axis, six or eight planes (end planes orthogonal to the axis or oblique), every choice of first pair / orientation in a pair / order of the last two side planes, '
     'FILL arrays with universe 0 and the own universe, symbolic centre / scale / axial bounds / placement; per path and provenance label z3 proves '
     '(point symbolic) that the written volumes equal the union of the reference elements translated by i a1 + j a2 [+ k a3] with a1 across the '
     'first-listed plane, a2 across the third-listed one, a3 across the seventh (reference vt/hexref.py: side midpoints).',
